@@ -122,6 +122,11 @@ func PreIdent(t *rapid.T, hostile bool, label string) string {
 	if !hostile {
 		return "x"
 	}
+	if Chance(t, 30, label+"anybyte") {
+		id := identChars(t, 0, 3, label+"ab")
+		at := rapid.IntRange(0, len(id)).Draw(t, label+"abat")
+		return id[:at] + string([]byte{byte(Uniform(t, 256, label+"abb"))}) + id[at:]
+	}
 	return []string{"", "00", "01", "0123", "a_b", "a b", "é", "a+b", "~", "a/b", "\u0161", "\u0430", "\u754c", "\u012d", "\uff11", "a\u0300"}[rapid.IntRange(0, 15).Draw(t, label+"bad")]
 }
 
@@ -138,6 +143,11 @@ func BuildIdent(t *rapid.T, hostile bool, label string) string {
 	}
 	if !hostile {
 		return "b"
+	}
+	if Chance(t, 30, label+"anybyte") {
+		id := identChars(t, 0, 3, label+"ab")
+		at := rapid.IntRange(0, len(id)).Draw(t, label+"abat")
+		return id[:at] + string([]byte{byte(Uniform(t, 256, label+"abb"))}) + id[at:]
 	}
 	return []string{"", "a_b", "é", "+", "a b", "\u0161", "\u0430", "\u754c", "\u012d", "\uff11", "x\u0161y"}[rapid.IntRange(0, 10).Draw(t, label+"bad")]
 }
@@ -287,6 +297,11 @@ func MutateString(t *rapid.T, s string, n int, alphabet []string) string {
 			pos = rapid.IntRange(0, len(s)).Draw(t, "mpos")
 		}
 		ins := alphabet[rapid.IntRange(0, len(alphabet)-1).Draw(t, "mins")]
+		if Chance(t, 25, "manybyte") {
+			// any single byte: the ones that alias a legal character under a bit trick (0x0D | 0x20 is '-',
+			// '@' | 0x20 is '`', c - '0' wrapping) are not in any fixed pool
+			ins = string([]byte{byte(Uniform(t, 256, "mbyte"))})
+		}
 		switch op {
 		case 0: // insert
 			s = s[:pos] + ins + s[pos:]
